@@ -23,6 +23,7 @@ DEEP = ('wait_async', 'cont_async', 'out_async', 'wait2')  # thorough: K=3 exhau
 
 def gen_cases(tier, seed):
     progs = dict(programs.basic_programs())
+    progs.update(programs.awkward_programs())
     rng = plans.rng_for(seed, 'c01')
     for n in range(40 if tier == 'thorough' else 8):
         progs['rnd%d' % n] = programs.random_program(rng, 5 if tier == 'thorough' else 4)
